@@ -462,7 +462,13 @@ func (r *Runner) Run(id int, spec Spec) *TxnRec {
 				rec.Buf[k] = e
 			}
 			if op.Kind == OpInsertDelete {
-				if err := txn.Delete([]byte(k)); err == nil {
+				// every other transaction deletes the way TiDB does it for a row it inserted itself
+				// (tombstone flagged NewlyInserted); the insert's existence check must survive both forms
+				del := func() error { return txn.Delete([]byte(k)) }
+				if rec.ID%2 == 1 {
+					del = func() error { return mb.DeleteWithFlags([]byte(k), kv.SetNewlyInserted) }
+				}
+				if err := del(); err == nil {
 					e := rec.Buf[k]
 					e.Kind, e.Val = BufDel, ""
 					rec.Buf[k] = e
